@@ -35,6 +35,10 @@ func genOp(t *rapid.T) kit.Cmd {
 		return kit.MkCmd(append([]string{gen.CaseOf(t, name)}, args...)...)
 	}
 	k := key(t)
+	if rapid.IntRange(0, 29).Draw(t, "bigfloat") == 0 {
+		// one field collects huge increments: finite + finite must not silently become infinite
+		return c("hincrbyfloat", k, "big", gen.Pick(t, "bigby", "1.7e308", "1.7e308", "-1.7e308", "1e308", "-1e308"))
+	}
 	switch gen.Weighted(t, "cmd", []int{12, 4, 6, 4, 4, 2, 2, 3, 3, 3, 6, 6, 4, 5, 2}) {
 	case 0:
 		n := rapid.IntRange(1, 3).Draw(t, "pairs")
@@ -80,7 +84,7 @@ func genOp(t *rapid.T) kit.Cmd {
 		by := gen.Pick(t, "by", "1", "-1", "5", "4611686018427387904", "-4611686018427387904", "9223372036854775807", "-9223372036854775808", "abc", "", "1.5")
 		return c("hincrby", k, field(t), by)
 	case 12:
-		by := gen.Pick(t, "byf", "0.5", "-0.5", "1", "1e300", "-1e300", "abc", "", "2.25")
+		by := gen.Pick(t, "byf", "0.5", "-0.5", "1", "1e300", "-1e300", "abc", "", "2.25", "1.7e308", "1.7e308", "-1.7e308", "1e308")
 		return c("hincrbyfloat", k, field(t), by)
 	case 13:
 		switch rapid.IntRange(0, 3).Draw(t, "form") {
